@@ -17,11 +17,15 @@ not-negative numbers assumed not negative).  A line of the reviewed baseline
 parenthesis, a wrong operand — is a broken obligation.
 
 Soundness (`Proofs/SignSound.lean`): `absBody_sound` (mutual induction over the whole DSL, loops by a
-checked invariant), `closedWith_line`, and `nnLine_sound_partial2` (`Proofs/SignSound2.lean`): for a line
+checked invariant), `closedWith_line`, and `nnLine_sound_partial3` (`Proofs/SignSound2.lean`): for a line
 that passes the analysis, against ALL stores whose inputs are not negative (a) and whose stored values under
 keys of `S` are not-negative numbers (b), a value returned by `Dsl.run` of `evalLine` is a not-negative
-number — relative to `RestFacts`, a store-free bundle of facts about the Python operators on values that are
-not all discharged yet (listed in that file).
+number.  Proved for the whole language including the field wrapper, the builtin table (`max`/`min` with the
+NaN-safe rule, `float`, `ceil`, `len`, `list`, `range`, `str`), `+ - * /`, thresholds, indexing, loops and
+helper calls; PARTIAL: relative to the four facts of `RestFacts3` that are still assumed — `float(int)` of a
+not-negative int is not negative (`IntToFloatNN`), `round` preserves sign (`RoundFact`; one use in the forms),
+and the two string lemmas that an f-string / qualified key denotes the (class, line) the analysis computed
+(`fstr`, `key`).
 -/
 set_option autoImplicit false
 
@@ -64,3 +68,11 @@ end HabuVerif.C15Sign
 #print axioms HabuVerif.Sign.nnLine_sound_partial
 #print axioms HabuVerif.Sign.nnLine_sound_partial2
 #print axioms HabuVerif.Sign.opFacts_of
+#print axioms HabuVerif.Sign.nnLine_sound_partial3
+#print axioms HabuVerif.Sign.restFacts_of
+#print axioms HabuVerif.Sign.wrapFact
+#print axioms HabuVerif.Sign.call_sound
+#print axioms HabuVerif.Sign.maxFact
+#print axioms HabuVerif.Sign.div_fact
+#print axioms HabuVerif.Sign.mul_NN
+#print axioms HabuVerif.Sign.thresh_sound
